@@ -14,6 +14,7 @@ The default (MILP) solver path of the one-shot pipeline, with microlp as a PARAM
 -/
 import Rooc.Compile
 import Rooc.SolverWrap
+import Rooc.Pipeline
 import Rooc.Proofs.ComposeContract
 import Rooc.Proofs.StdSem
 
@@ -37,6 +38,16 @@ structure SolverSpec (lm : LinModel (Ext K)) (out : MlpOutcome (Ext K)) : Prop w
     LinOptimal lm (assignmentOf sol) ∧ ∃ w, sol.value = .fin w ∧ linObjective lm (assignmentOf sol) = some w
   infeasible : wrapAuto lm out = .err "Infeasible" → LinInfeasible lm
 
+/-- the same contract on ANY answer `res` handed back for `lm` (`SolverSpec lm out` is `AnswerSpec lm (wrapAuto lm out)`);
+for rooc's own simplex it is proved (`ComposeReturn.simplex_answerSpec`), for the external solvers it is the assumption. -/
+structure AnswerSpec (lm : LinModel (Ext K)) (res : Res (Ext K)) : Prop where
+  optimal : ∀ sol, res = .ok sol → sol.status = .optimal →
+    LinOptimal lm (assignmentOf sol) ∧ ∃ w, sol.value = .fin w ∧ linObjective lm (assignmentOf sol) = some w
+  infeasible : res = .err "Infeasible" → LinInfeasible lm
+
+theorem SolverSpec.answerSpec {lm : LinModel (Ext K)} {out : MlpOutcome (Ext K)} (h : SolverSpec lm out) :
+    AnswerSpec lm (wrapAuto lm out) := ⟨h.optimal, h.infeasible⟩
+
 /-- the one-shot pipeline on a source model, the external solver being the function `solver`. -/
 noncomputable def oneShot (solver : LinModel (Ext K) → MlpOutcome (Ext K)) (m : Model (Ext K)) (t : K) (maxSteps : Nat) :
     Res (Ext K) :=
@@ -48,5 +59,47 @@ theorem oneShot_ok {solver : LinModel (Ext K) → MlpOutcome (Ext K)} {m : Model
     {lm : LinModel (Ext K)} (h : Compile.linearize m (.fin t) maxSteps = .ok lm) :
     oneShot solver m t maxSteps = wrapAuto lm (solver lm) := by
   simp [oneShot, h]
+
+/-- `oneShot` is the DIFFED model function `Pipeline.solveUsingAuto` (the glue of `RoocSolver::solve_using`, compared in
+full with the real entry point on every `./check C03` run), read as a `Res`. -/
+theorem oneShot_eq_pipeline (solver : LinModel (Ext K) → MlpOutcome (Ext K)) (m : Model (Ext K)) (t : K) (maxSteps : Nat) :
+    oneShot solver m t maxSteps =
+      match Pipeline.solveUsingAuto m (.fin t) maxSteps solver with
+      | .solved _ s => .ok s
+      | .linearization _ => .err "Linearization"
+      | .solver v => .err v
+      | .panic => .panic := by
+  unfold oneShot Pipeline.solveUsingAuto
+  cases Compile.linearize m (.fin t) maxSteps with
+  | error e => rfl
+  | ok lm => simp only; cases wrapAuto lm (solver lm) <;> rfl
+
+/-- the two verdict arms of the diffed function, in `oneShot`'s terms. -/
+theorem pipeline_solved {solver : LinModel (Ext K) → MlpOutcome (Ext K)} {m : Model (Ext K)} {t : K} {maxSteps : Nat}
+    {lm : LinModel (Ext K)} {sol : Solution (Ext K)}
+    (h : Pipeline.solveUsingAuto m (.fin t) maxSteps solver = .solved lm sol) :
+    Compile.linearize m (.fin t) maxSteps = .ok lm ∧ oneShot solver m t maxSteps = .ok sol := by
+  unfold Pipeline.solveUsingAuto at h
+  cases hc : Compile.linearize m (.fin t) maxSteps with
+  | error e => simp [hc] at h
+  | ok lm' =>
+    simp only [hc] at h
+    cases hw : wrapAuto lm' (solver lm') with
+    | ok s => simp only [hw, Pipeline.Outcome.solved.injEq] at h; obtain ⟨rfl, rfl⟩ := h; exact ⟨rfl, by simp [oneShot, hc, hw]⟩
+    | err v => simp [hw] at h
+    | panic => simp [hw] at h
+
+theorem pipeline_solver {solver : LinModel (Ext K) → MlpOutcome (Ext K)} {m : Model (Ext K)} {t : K} {maxSteps : Nat}
+    {v : String} (h : Pipeline.solveUsingAuto m (.fin t) maxSteps solver = .solver v) :
+    ∃ lm, Compile.linearize m (.fin t) maxSteps = .ok lm ∧ oneShot solver m t maxSteps = .err v := by
+  unfold Pipeline.solveUsingAuto at h
+  cases hc : Compile.linearize m (.fin t) maxSteps with
+  | error e => simp [hc] at h
+  | ok lm' =>
+    simp only [hc] at h
+    cases hw : wrapAuto lm' (solver lm') with
+    | ok s => simp [hw] at h
+    | err v' => simp only [hw, Pipeline.Outcome.solver.injEq] at h; subst h; exact ⟨lm', rfl, by simp [oneShot, hc, hw]⟩
+    | panic => simp [hw] at h
 
 end Rooc.Compose
